@@ -20,7 +20,8 @@ type vstatus struct {
 func verif_C18_script() {
 	T := verifBound(2, 3)
 	nt := nondetInt(1, T)
-	withCb := nondetBool()
+	cbMode := verifChoice(3) // 0 LMTPData with a callback, 1 Data(), 2 LMTPData(nil)
+	withCb := cbMode == 0
 	c, vc := verifClient("", nil)
 	c.lmtp = true
 	for t := 0; t < nt; t++ {
@@ -74,8 +75,10 @@ func verif_C18_script() {
 				}
 				got = append(got, vstatus{rcpt, code})
 			})
-		} else {
+		} else if cbMode == 1 {
 			w, err = c.Data()
+		} else {
+			w, err = c.LMTPData(nil)
 		}
 		verifAssert(err == nil, "C18.data-started")
 		if err != nil {
